@@ -248,6 +248,10 @@ class OptimumAcrossOptions(NativeCase):
         # (read-modify-write; seed C07-4), with and without slack in the length bound
         blocks += ["MLOAD ISZERO MSTORE", "SWAP1 SWAP1 MLOAD ISZERO MSTORE", "SLOAD PUSH 1 ADD SSTORE", "DUP1 SLOAD PUSH 1 ADD SWAP1 SSTORE",
                    "DUP1 MLOAD PUSH 1 ADD SWAP1 MSTORE", "DUP1 DUP1 POP SLOAD ISZERO SWAP1 SSTORE"]
+        # stacks of 17 elements: the deepest DUP/SWAP must be in the vocabulary of the encoding (seed C07-7), and results that are computed
+        # on top and sunk by one SWAPd (seed C07-8: the upper position bound shrinks with the depth in the final stack)
+        blocks += ["SWAP16", "DUP16", "SWAP16 SWAP1", "SWAP15", "DUP16 ADD", "ISZERO DUP1 NOT SWAP2", "ADD DUP1 ISZERO SWAP2", "NOT DUP1 ISZERO SWAP3",
+                   "DUP1 ISZERO SWAP2", "ISZERO DUP1 NOT DUP1 NOT SWAP3"]
         crits = [('gas', []), ('size', ['-size']), ('length', ['-length'])]
         n = 0
         for b in blocks:
